@@ -114,7 +114,12 @@ class FiltersSet:
 
     def check_if_arg_is_extension(self, arg: str):
         """Include extension if arg requires one."""
-        args_using_extensions = {":copy": "copy", ":create": "mailbox"}
+        args_using_extensions = {
+            ":copy": "copy",
+            ":create": "mailbox",
+            ":flags": "imap4flags",
+            ":seconds": "vacation-seconds",
+        }
         if isinstance(arg, str) and arg in args_using_extensions:
             self.require(args_using_extensions[arg])
 
